@@ -81,7 +81,7 @@ def select(f0: int, f1: int, f2: int, f3: int, aw0: bool, aw1: bool, aw2: bool, 
 MM = (("Muss", "MUSS"), ("muss", "MUSS"), ("M", "MUSS"), ("m", "MUSS"), ("MUSS", "MUSS"), ("mUsS", "MUSS"), ("Soll", "SOLL"), ("s", "SOLL"), ("S", "SOLL"), ("soLL", "SOLL"), ("Kann", "KANN"), ("k", "KANN"), ("K", "KANN"), ("KANN", "KANN"))
 PO = (("X", "X"), ("x", "X"), ("O", "O"), ("o", "O"), ("U", "U"), ("u", "U"))
 CONDS = ("[1]", "[2]U[501]", "[3][901]", "([1]O[2])", "[1]∧[2]")
-WS = ("", " ", "\t", "  ")
+WS = ("", " ", "\t", "  ", "\n", " \r\n")
 _CASES = {}
 
 
@@ -96,12 +96,12 @@ def cases():
     for sp, name in MM:
         for c in CONDS:
             n += 1
-            out.append((f"{sp}{WS[n % 4]}{c}{WS[(n // 4) % 4]}", [(name, c)]))
+            out.append((f"{sp}{WS[n % 6]}{c}{WS[(n // 6) % 6]}", [(name, c)]))
         out.append((sp, [(name, None)]))
     for sp, name in PO:
         for c in CONDS[:3]:
             n += 1
-            out.append((f"{sp}{WS[n % 4]}{c}", [(name, c)]))
+            out.append((f"{sp}{WS[n % 6]}{c}", [(name, c)]))
         out.append((sp, [(name, None)]))
     # two and three parts, optional trailing bare mark
     for a in range(0, len(MM), 2):
@@ -109,14 +109,14 @@ def cases():
             n += 1
             (s1, n1), (s2, n2) = MM[a], MM[b]
             c1, c2 = CONDS[n % 3], CONDS[(n + 1) % 3]
-            multi.append((f"{s1}{WS[n % 4]}{c1}{WS[(n + 1) % 4]}{s2}{WS[(n + 2) % 4]}{c2}", [(n1, c1), (n2, c2)]))
+            multi.append((f"{s1}{WS[n % 6]}{c1}{WS[(n + 1) % 6]}{s2}{WS[(n + 2) % 6]}{c2}", [(n1, c1), (n2, c2)]))
             if n % 2 == 0:
                 s3, n3 = MM[(a + b) % len(MM)]
-                multi.append((f"{s1}{c1} {s2}{WS[n % 4]}{c2} {s3}", [(n1, c1), (n2, c2), (n3, None)]))
+                multi.append((f"{s1}{c1} {s2}{WS[n % 6]}{c2} {s3}", [(n1, c1), (n2, c2), (n3, None)]))
             else:
                 s3, n3 = MM[(a + b + 5) % len(MM)]
                 c3 = CONDS[(n + 2) % 3]
-                multi.append((f"{s1}{WS[n % 3]}{c1}{s2}{c2}\t{s3}{WS[n % 4]}{c3}", [(n1, c1), (n2, c2), (n3, c3)]))
+                multi.append((f"{s1}{WS[n % 5]}{c1}{s2}{c2}\t{s3}{WS[n % 6]}{c3}", [(n1, c1), (n2, c2), (n3, c3)]))
     for sp, name in MM[::3]:
         out.append((f"{sp} [1] {MM[1][0]}", [(name, "[1]"), ("MUSS", None)]))
     out += multi if LEVEL else multi[::3]
@@ -134,6 +134,8 @@ def glue(idx: int, s1: int, s2: int, s3: int, fb: bool) -> bool:
     post: _
     """
     idx = xs.pick(idx, LO, HI)
+    xs.REAL_LRU = True  # every lru_cache of the code under test really caches during this path (CrossHair would bypass it) ...
+    xs.clear_ahbicht_caches()  # ... and starts empty
     with xs.nt():
         text, parts = cases()[idx]
         used = sorted({k for _, c in parts if c for k in ("1", "2", "3") if f"[{k}]" in c})
